@@ -14,6 +14,7 @@ Case: {"learner": {"kind": "linucb"|"lints", "features": [term | {"n":[num,den]}
     recorded feature vectors reproduces every pmf and the final theta / A^-1 of the real learner; the second real run with the
     terms in another order gives the same pmfs (theorem linucb_perm_equivariant), and the model run on the permuted vectors too.
 """
+import json
 import math
 import os
 from fractions import Fraction
@@ -378,6 +379,61 @@ def evaluate(prop, case, driver, H):
                 tags.append("learner:source-program-agrees")
         except H["DriverError"] as e:
             fails.append(F("A", "Lean driver op learnprog failed: %s" % str(e)[:200], "A:learnprog-driver"))
+    # phase 5: the `_pmf` program read off the CURRENT source, run by the Lean interpreter `runPredict` on every prediction of the
+    # history, against the model (`LinState.pmf` / `pmfTS`) and against the real learner's pmf.  The unary function (math.sqrt on the
+    # bounds / round(.,5) on the estimates) is sent as a finite table of the arguments that occur.
+    try:
+        pm = extract_pmf_prog(kind)
+    except Exception:
+        pm = None
+        tags.append("learner:pmf-prog-not-extracted")
+    if pm is not None and any(s["op"] == "predict" for s in steps[init:]):
+        table, ok_tab = {}, True
+        for pr in ans["preds"]:
+            for e, b in pr:
+                e, b = j2q(e), j2q(b)
+                if kind == "linucb":
+                    if b < 0:
+                        ok_tab = False
+                    else:
+                        table[b] = Fraction(math.sqrt(b))
+                else:
+                    table[e] = round(e, 5)
+                    table[max(j2q(x) for x, _ in pr)] = round(max(j2q(x) for x, _ in pr), 5)
+        if ok_tab:
+            try:
+                a3 = driver.ask({"op": "pmfprog", "kind": kind, "d": d, "events": events, "alpha": q2j(Fraction(alpha)),
+                                 "table": [[q2j(x), q2j(Fraction(y))] for x, y in table.items()],
+                                 "prog": pm["prog"], "lhs": pm["lhs"], "top": pm["top"]})
+                if a3["prog"] != a3["model"]:
+                    fails.append(F("A", "%s: the `_pmf` program read off the source, run by the Lean interpreter `runPredict`, gives %s; the model's pmf is %s"
+                                   % (show(), json.dumps(a3["prog"])[:200], json.dumps(a3["model"])[:200]), "A:learner-pmf-prog-vs-model"))
+                else:
+                    tags.append("learner:pmf-program-agrees")
+                mi = 0
+                for k in range(init, len(steps)):
+                    if steps[k]["op"] != "predict":
+                        continue
+                    mpj, scores = a3["prog"][mi], [(j2q(e), j2q(b)) for e, b in ans["preds"][mi]]
+                    mi += 1
+                    if mpj is None or outs[k]["pmf"] is None:
+                        continue
+                    mp = [float(j2q(x)) for x in mpj]
+                    if kind == "linucb":
+                        # the real code adds in doubles, the model in Q: compare only when both agree on the set of maximisers
+                        fl = pmf_from_scores(kind, alpha, scores)
+                        if fl is None or [x > 0 for x in fl] != [x > 0 for x in mp]:
+                            tags.append("learner:pmf-prog:float-tie-ambiguous")
+                            continue
+                    ntie = sum(1 for x in mp if x > 0)
+                    tags.append("learner:pmf-prog:maximisers:%d" % min(ntie, 3))
+                    if list(outs[k]["pmf"]) != mp:
+                        fails.append(F("A", "%s: step #%d: the learner's pmf %r differs from what the `_pmf` program read off the source gives in the Lean interpreter, %r "
+                                       "(point estimates and bounds %s)" % (show(k + 1), k + 1, outs[k]["pmf"], mp, [(str(e), str(b)) for e, b in scores]),
+                                       "A:learner-pmf-prog"))
+                        break
+            except H["DriverError"] as e:
+                fails.append(F("A", "Lean driver op pmfprog failed: %s" % str(e)[:200], "A:pmfprog-driver"))
     if any(any(b < 0 for _, b in [(j2q(e), j2q(b)) for e, b in pr]) for pr in ans["preds"]):
         fails.append(F("C", "model: a confidence bound x^T A^-1 x is negative", "C:linucb-bound-negative"))
     if p is not None:
@@ -643,6 +699,182 @@ def extract_learn_prog(kind, repo=None):
     return prog
 
 
+LAST_KNOWN_PMF = {
+    "linucb": {"prog": [["matmul", ["theta"], ["feats"]], ["einsumCols", ["matmul", ["ainv"], ["feats"]], ["feats"]],
+                        ["add", ["mul", ["alpha"], ["fn1", ["var", 1]]], ["var", 0]]],
+               "lhs": ["var", 2], "top": ["amax", ["var", 2]], "fn": "sqrt", "branch": None},
+    "lints": {"prog": [["theta"], ["matmul", ["var", 0], ["feats"]]],
+              "lhs": ["fn1", ["var", 1]], "top": ["fn1", ["amax", ["var", 1]]], "fn": "round5", "branch": "self._v == 0"},
+}
+_PMFS = {}
+
+
+def extract_pmf_prog(kind, repo=None):
+    """read the body of `_pmf` in linucb.py / lints.py off the source (ast), phase 5: the assignments after the feature matrix is
+    built as expressions of the Lean type `PExp` (JSON form; local i = i-th assignment), the selection statement
+    `M = np.where(L == R)[0]` as the pair (lhs, top) and the returned comprehension, which must be literally
+    `[int(i in M)/len(M) for i in range(len(actions))]`.  The feature matrix is tracked with its orientation: `np.array([encode ...
+    for action in actions])` is K x d, `.T` flips it, and it may only be used as d x K (columns = actions) on the right of `@` / in
+    einsum('ij,ij->j').  `self._theta`/`_mu_hat` -> theta, `_A_inv`/`_B_inv` -> ainv, `self._alpha` -> alpha; ONE unary numpy function
+    (np.sqrt(x) / x.round(5)) -> fn1, its name is returned.  For lints the branch `if self._v == 0` is read (the else branch draws
+    from numpy's generator and is not modelled).  Anything else raises (the caller falls back and says so)."""
+    import ast
+    repo = repo or os.environ.get("COBA_REPO", "/repo")
+    if (repo, kind) in _PMFS:
+        return _PMFS[(repo, kind)]
+    rel, cls = {"linucb": ("coba/learners/linucb.py", "LinUCBLearner"), "lints": ("coba/learners/lints.py", "LinTSLearner")}[kind]
+    tree = ast.parse(open(os.path.join(repo, rel), encoding="utf-8").read())
+    fn = None
+    for node in ast.walk(tree):
+        if isinstance(node, ast.ClassDef) and node.name == cls:
+            for f in node.body:
+                if isinstance(f, ast.FunctionDef) and f.name == "_pmf":
+                    fn = f
+    if fn is None:
+        raise LookupError("%s._pmf not found" % cls)
+    params = [a.arg for a in fn.args.args]
+    if len(params) < 3:
+        raise ValueError("unexpected signature of _pmf")
+    actions_name = params[2]
+    attrs = {"_theta": ["theta"], "_mu_hat": ["theta"], "_A_inv": ["ainv"], "_B_inv": ["ainv"], "_alpha": ["alpha"]}
+    env, feat, fns, prog, sel, ret, branch = {}, {}, set(), [], None, None, [None]
+
+    def is_self_attr(n):
+        return isinstance(n, ast.Attribute) and isinstance(n.value, ast.Name) and n.value.id == "self"
+
+    def is_np(n, name):
+        return isinstance(n, ast.Call) and isinstance(n.func, ast.Attribute) and n.func.attr == name and isinstance(n.func.value, ast.Name) and not n.keywords
+
+    def orient(n):
+        """the feature matrix with its orientation, or None"""
+        if isinstance(n, ast.Name) and n.id in feat:
+            return feat[n.id]
+        if isinstance(n, ast.Attribute) and n.attr == "T":
+            o = orient(n.value)
+            if o is not None:
+                return "cols" if o == "rows" else "rows"
+        return None
+
+    def expr(n):
+        o = orient(n)
+        if o is not None:
+            if o != "cols":
+                raise ValueError("the feature matrix is used as K x d (line %d)" % n.lineno)
+            return ["feats"]
+        if isinstance(n, ast.Name):
+            if n.id in env:
+                return ["var", env[n.id]]
+            raise ValueError("unknown name %s (line %d)" % (n.id, n.lineno))
+        if is_self_attr(n) and n.attr in attrs:
+            return attrs[n.attr]
+        if isinstance(n, ast.BinOp):
+            ops = {ast.MatMult: "matmul", ast.Add: "add", ast.Mult: "mul"}
+            if type(n.op) in ops:
+                l, r = expr(n.left), expr(n.right)
+                if ops[type(n.op)] in ("add", "mul"):
+                    # numpy's elementwise + and * commute (also on doubles): operands in a canonical order, so `a+b` and `b+a` read the same
+                    l, r = sorted([l, r], key=lambda e: json.dumps(e))
+                return [ops[type(n.op)], l, r]
+        if is_np(n, "einsum") and len(n.args) == 3 and isinstance(n.args[0], ast.Constant) and n.args[0].value == "ij,ij->j":
+            return ["einsumCols", expr(n.args[1]), expr(n.args[2])]
+        if is_np(n, "amax") and len(n.args) == 1:
+            return ["amax", expr(n.args[0])]
+        if isinstance(n, ast.Call) and isinstance(n.func, ast.Attribute) and n.func.attr == "round" and len(n.args) == 1 \
+                and isinstance(n.args[0], ast.Constant) and isinstance(n.args[0].value, int) and not n.keywords:
+            fns.add("round%d" % n.args[0].value)
+            return ["fn1", expr(n.func.value)]
+        if isinstance(n, ast.Call) and isinstance(n.func, ast.Attribute) and isinstance(n.func.value, ast.Name) and len(n.args) == 1 and not n.keywords \
+                and n.func.attr not in ("array", "where", "einsum", "outer"):
+            fns.add(n.func.attr)
+            return ["fn1", expr(n.args[0])]
+        raise ValueError("unsupported expression %s (line %d)" % (ast.dump(n)[:60], n.lineno))
+
+    def has_encode(n):
+        return any(isinstance(c, ast.Call) and isinstance(c.func, ast.Attribute) and c.func.attr == "encode" for c in ast.walk(n))
+
+    def feature_matrix(val):
+        """np.array([... encode ... for action in actions]) possibly followed by .T"""
+        flips = 0
+        while isinstance(val, ast.Attribute) and val.attr == "T":
+            val, flips = val.value, flips + 1
+        if not (is_np(val, "array") and len(val.args) == 1 and isinstance(val.args[0], ast.ListComp)):
+            raise ValueError("the feature matrix is not np.array([... for action in actions]) (line %d)" % val.lineno)
+        lc = val.args[0]
+        if not (len(lc.generators) == 1 and isinstance(lc.generators[0].iter, ast.Name) and lc.generators[0].iter.id == actions_name
+                and not lc.generators[0].ifs and isinstance(lc.elt, ast.Call) and has_encode(lc.elt)):
+            raise ValueError("the feature matrix is not built from one encode call per action (line %d)" % val.lineno)
+        return "rows" if flips % 2 == 0 else "cols"
+
+    def stmts(body):
+        nonlocal sel, ret
+        for st in body:
+            if isinstance(st, ast.Expr) and isinstance(st.value, ast.Constant):
+                continue
+            if isinstance(st, ast.If):
+                if all(isinstance(b, ast.Expr) and isinstance(b.value, ast.Call) for b in st.body) and not st.orelse:
+                    continue            # `if self._A_inv is None: self._initialize(...)`
+                tst = st.test
+                if isinstance(tst, ast.Compare) and is_self_attr(tst.left) and tst.left.attr == "_v" and len(tst.ops) == 1 and isinstance(tst.ops[0], ast.Eq) \
+                        and isinstance(tst.comparators[0], ast.Constant) and tst.comparators[0].value == 0 and branch[0] is None:
+                    branch[0] = "self._v == 0"
+                    stmts(st.body)
+                    continue
+                raise ValueError("unsupported if statement (line %d)" % st.lineno)
+            if isinstance(st, ast.Return):
+                if sel is None or ret is not None:
+                    raise ValueError("return before the selection (line %d)" % st.lineno)
+                v = st.value
+                ok = isinstance(v, ast.ListComp) and len(v.generators) == 1 and isinstance(v.generators[0].target, ast.Name)
+                if ok:
+                    i = v.generators[0].target.id
+                    want = ast.parse("[int(%s in %s)/len(%s) for %s in range(len(%s))]" % (i, sel[0], sel[0], i, actions_name), mode="eval").body
+                    ok = ast.dump(v) == ast.dump(want)
+                if not ok:
+                    raise ValueError("the returned expression is not [int(i in M)/len(M) for i in range(len(actions))] (line %d)" % st.lineno)
+                ret = True
+                continue
+            if not (isinstance(st, ast.Assign) and len(st.targets) == 1 and isinstance(st.targets[0], ast.Name)):
+                raise ValueError("unsupported statement (line %d)" % st.lineno)
+            if sel is not None:
+                raise ValueError("assignment after the selection (line %d)" % st.lineno)
+            tgt, val = st.targets[0].id, st.value
+            if has_encode(val):
+                feat[tgt] = feature_matrix(val)
+                continue
+            if is_self_attr(val) and val.attr == "_np":
+                continue
+            if isinstance(val, ast.BoolOp) and isinstance(val.op, ast.Or) and isinstance(val.values[0], ast.Name) and val.values[0].id == tgt:
+                continue                # `context = context or []`
+            if isinstance(val, ast.Subscript) and is_np(val.value, "where"):
+                idx = val.slice
+                cmp_ = val.value.args[0] if len(val.value.args) == 1 else None
+                if not (isinstance(idx, ast.Constant) and idx.value == 0 and isinstance(cmp_, ast.Compare) and len(cmp_.ops) == 1
+                        and isinstance(cmp_.ops[0], ast.Eq)):
+                    raise ValueError("the selection is not np.where(L == R)[0] (line %d)" % st.lineno)
+                sel = (tgt, expr(cmp_.left), expr(cmp_.comparators[0]))
+                continue
+            e = expr(val)
+            env[tgt] = len(env)
+            prog.append(e)
+
+    stmts(fn.body)
+    if sel is None or not ret:
+        raise ValueError("_pmf has no selection / return of the expected form")
+    if len(fns) > 1:
+        raise ValueError("more than one unary numpy function: %s" % sorted(fns))
+    out = {"prog": prog, "lhs": sel[1], "top": sel[2], "fn": (sorted(fns)[0] if fns else None), "branch": branch[0]}
+    _PMFS[(repo, kind)] = out
+    return out
+
+
+def lean_pexp(e):
+    if e[0] in ("theta", "ainv", "feats", "alpha"):
+        return "." + e[0]
+    if e[0] == "var":
+        return "(.var %d)" % e[1]
+    return "(.%s %s)" % (e[0], " ".join(lean_pexp(x) for x in e[1:]))
+
+
 def lean_lexp(e):
     if e[0] in ("theta", "ainv", "feat", "reward", "one"):
         return "." + e[0]
@@ -671,7 +903,22 @@ def write_generated(lean_dir):
             defs.append("-- %s: learn could not be read off the source (%s); last known program:" % (kind, str(e).replace("\n", " ")[:150]))
             notes.append("%s.learn could NOT be read off the source (%s); %s_learn_source is about the last known program; the learner histories still run the real code" % (kind, e, kind))
         defs.append("def %sLearn : List LStmt :=\n  %s" % (kind, lean_prog(prog)))
-    body = ("-- GENERATED by harness/props/c20.py (props/c20_learner.py) from the bodies of `learn` in coba/learners/linucb.py and lints.py\n"
+    pok = True
+    for kind in ("linucb", "lints"):
+        try:
+            pm = extract_pmf_prog(kind)
+            notes.append("%s._pmf read off the source: %d assignments, selection, unary function %s" % (kind, len(pm["prog"]), pm["fn"]))
+        except Exception as e:
+            pok = False
+            pm = LAST_KNOWN_PMF[kind]
+            defs.append("-- %s: _pmf could not be read off the source (%s); last known program:" % (kind, str(e).replace("\n", " ")[:150]))
+            notes.append("%s._pmf could NOT be read off the source (%s); %s_predict_source is about the last known program; the learner histories still run the real code" % (kind, e, kind))
+        defs.append("def %sPredict : List PExp :=\n  [%s]" % (kind, ",\n   ".join(lean_pexp(e) for e in pm["prog"])))
+        defs.append("def %sPredictLhs : PExp := %s" % (kind, lean_pexp(pm["lhs"])))
+        defs.append("def %sPredictTop : PExp := %s" % (kind, lean_pexp(pm["top"])))
+        defs.append("def %sPredictFn : String := %s" % (kind, json.dumps(pm["fn"] or "")))
+    defs.append("def predictExtracted : Bool := %s" % ("true" if pok else "false"))
+    body = ("-- GENERATED by harness/props/c20.py (props/c20_learner.py) from the bodies of `learn` and `_pmf` in coba/learners/linucb.py and lints.py\n"
             "-- on every run; do not edit.\nimport CobaVerif.Model.C20\nnamespace Coba.Generated.C20\nopen Coba.C20\n"
             + "\n".join(defs) + "\ndef linalgExtracted : Bool := %s\nend Coba.Generated.C20\n" % ("true" if ok else "false"))
     path = os.path.join(lean_dir, "CobaVerif", "Generated", "C20LinAlg.lean")
